@@ -221,8 +221,10 @@ pub fn schema_perturbed() -> Vec<PRun> {
 pub fn schema_pairs() -> Vec<PRun> {
     let mut v: Vec<PRun> = Vec::new();
     pairs!(v; [u8, i8, u16, String, Vec<u8>, Vec<u16>, [u8; 2], [u8; 3], (u8, u8), Option<u8>, Result<u8, u8>,
-               BTreeMap<u8, u8>, HashMap<u8, u8>, BTreeSet<u8>, VecDeque<u8>, Box<[u8]>, usize, u64, (u8,), Vec<String>];
+               BTreeMap<u8, u8>, HashMap<u8, u8>, BTreeSet<u8>, VecDeque<u8>, Box<[u8]>, usize, u64, (u8,), Vec<String>,
+               u128, i128, core::num::NonZeroU128, core::num::NonZeroI128, core::num::NonZeroU16, core::num::NonZeroI16];
                [u8, i8, u16, String, Vec<u8>, Vec<u16>, [u8; 2], [u8; 3], (u8, u8), Option<u8>, Result<u8, u8>,
-               BTreeMap<u8, u8>, HashMap<u8, u8>, BTreeSet<u8>, VecDeque<u8>, Box<[u8]>, usize, u64, (u8,), Vec<String>]);
+               BTreeMap<u8, u8>, HashMap<u8, u8>, BTreeSet<u8>, VecDeque<u8>, Box<[u8]>, usize, u64, (u8,), Vec<String>,
+               u128, i128, core::num::NonZeroU128, core::num::NonZeroI128, core::num::NonZeroU16, core::num::NonZeroI16]);
     v
 }
